@@ -109,8 +109,10 @@ def special_frames(rng):
         if b"\n" not in x:
             out.append((rtcm_frame(b"\x00\x00" + x), "RTCM"))
     # text lines far longer than any NMEA sentence: '$G' + several hundred / thousand bytes without LF (whatever the NMEA parser makes of them)
-    for n in (300, 600, 1100, 9000):
+    for n in (300, 600, 1100, 4200, 9000):
         out.append((b"$GNTXT," + bytes(0x41 + (k % 26) for k in range(n)) + b"*00\r\n", "NMEA"))
+        # ... and the same with its correct checksum (whether the NMEA parser takes a sentence that long is its business)
+        out.append((nmea_line("GNTXT,01,01,02," + "".join(chr(0x41 + (k % 26)) for k in range(n))), "NMEA"))
         out.append((b"$P" + bytes(rng.choice(b"\x00\x01\xb5\x62\xd3\xff0123") for _ in range(n)) + b"\n", "NMEA"))
     # RTCM3 runts (0- / 1-byte payload, rejected by the parser) whose payload or CRC bytes are frame-start bytes
     for v in range(256):
@@ -119,6 +121,10 @@ def special_frames(rng):
             out.append((fr, "RTCM"))
     for crc in (b"\xb5\x62\x05", b"\x24\x47\x4e", b"\x00\xd3\x00", b"\x00\x00\xb5"):
         out.append((b"\xd3\x00\x00" + crc, "RTCM"))
+    # MGA frames (class 13: the third key byte of their table entries is a payload byte) with type bytes no table entry knows
+    for mid in (0x00, 0x02, 0x03, 0x05, 0x06, 0x20, 0x21, 0x40, 0x60, 0x80):
+        for typ in (0x07, 0xEE, 0x02, 0x00):
+            out.append((frame(0x13, mid, bytes((typ,)) + bytes(1 + (mid + typ) % 40)), "UBX"))
     # frames whose own header bytes contain the sync characters (id b5 + length 0x..62, length 0x62b5, class/id b5 62)
     out.append((frame(0x77, 0xB5, bytes(0x62)), "UBX"))
     out.append((frame(0xB5, 0x62, b"\x01\x02\x03"), "UBX"))
@@ -257,6 +263,7 @@ def obs_runs(case):
                           handler=bool(pl.get("handler", 1)), msgmode=mm, validate=va, pbf=pbf,
                           keep_reads=bool(pl.get("reads", 0)), labelmsm=lm, bursts=case.get("bursts", ()), pauses=case.get("pauses", ()), kind=case.get("streamkind", "min"),
                           resume=bool(pl.get("resume", 0)), companion=bytes.fromhex(case["companion"]) if case.get("companion") else None,
+                          reentrant=case["prop"] == "C08",
                           poll=case["prop"] == "C07")  # C07 speaks of successive read() calls: a polling caller asks again after (None, None)
         r["cut"] = cut
         r["reads"] = 1 if pl.get("reads", 0) and case.get("streamkind") != "sock" and not case.get("pauses") else 0
